@@ -361,8 +361,8 @@ static bool parseOp(char** tok, int ntok, OpRec& o)
 {
   static const char* const idx2[] = {"scopy", "sassign", "vcopy", "vassign", "vswap", "xcopy", "xassign", "pcopy", "passign", "pswap", 0};
   static const char* const idx1[] = {"sclear", "sdel", "vclear", "xclear", "pclear", 0};
-  static const char* const idxNum[] = {"sreserve", "vseti", "vpush", "pnew", 0};
-  static const char* const idxHex[] = {"snew", "slit", "sappend", "vsets", "vapp", "xsets", "xelem", 0};
+  static const char* const idxNum[] = {"sreserve", "vseti", "vpush", "vsetl", "pnew", 0};
+  static const char* const idxHex[] = {"snew", "slit", "sappend", "sset", "vsets", "vapp", "xsets", "xelem", 0};
   if(ntok < 2 || strlen(tok[0]) >= sizeof(o.name))
     return false;
   strcpy(o.name, tok[0]);
@@ -425,6 +425,7 @@ static void execOp(const OpRec& o)
     else if(!strcmp(n, "sappend")) S[d]->append(bytes, o.len);
     else if(!strcmp(n, "sreserve")) S[d]->reserve((usize)s);
     else if(!strcmp(n, "sdel")) { S[d]->~String(); new(stS[d]) String; }
+    else if(!strcmp(n, "sset")) *S[d] = String(bytes, o.len);
     break;
   case 'v':
     curKind = 1;
@@ -436,6 +437,7 @@ static void execOp(const OpRec& o)
     else if(!strcmp(n, "vapp")) V[d]->toString().append(bytes, o.len);
     else if(!strcmp(n, "vpush")) V[d]->toList().append(Variant((int)s));
     else if(!strcmp(n, "vswap")) V[d]->swap(*V[s]);
+    else if(!strcmp(n, "vsetl")) { List<Variant> l; l.append(Variant((int)s)); *V[d] = l; }
     break;
   case 'x':
     curKind = 2;
